@@ -111,6 +111,17 @@ Example C14_nonvacuous_compose :
   denote Z (CC Z (CC Z (CF Z neg_f) (CF Z sub_f)) (CF Z (swap_f Z))) [10; 3] = Some [7]
   /\ run Z (flatten Z (CC Z (CF Z neg_f) (CC Z (CF Z sub_f) (CF Z (swap_f Z))))) [10; 3] = ([], [7]).
 Proof. split; reflexivity. Qed.
+(* a MULTI-output functor (swap) followed by non-commutative functors, with an operand the combinator does
+   not consume: (mul * sub * swap)(a,b,c) = (b-a)*c whether supplied at once, as (a,b)(c) or (a)(b,c); and a
+   call with a surplus operand returns (result, operand left over) *)
+Definition mul_f : functor Z := {| arity := 2; fmap := fun l => match l with [a; b] => [a * b] | _ => [] end |}.
+Example C14_nonvacuous_multi_output :
+  feed Z [swap_f Z; sub_f; mul_f] [[10; 1; 5]] = ([], [-45])
+  /\ feed Z [swap_f Z; sub_f; mul_f] [[10; 1]; [5]] = ([], [-45])
+  /\ feed Z [swap_f Z; sub_f; mul_f] [[10]; [1; 5]] = ([], [-45])
+  /\ feed Z [swap_f Z; sub_f] [[10; 1; 5]] = ([], [-9; 5])
+  /\ feed Z [dig_f Z 2; sub_f; sub_f] [[1; 2; 3; 4]] = ([], [0; 4]).
+Proof. repeat split; reflexivity. Qed.
 (* a wf tree of depth 3 with a binary node over a non-leaf at position 0 *)
 Example C14_nonvacuous_extraction :
   let e := Node Z dbl_v [Node Z sub_v [Node Z dbl_v [Leaf Z 4]; Leaf Z 3]] in
